@@ -102,6 +102,7 @@ type World struct {
 	subs         []*subCtx
 	knownTrue    map[string]bool
 	fmtOrigin    map[string]*Term
+	fmtOriginS   map[string]*Term // signed: FormatInt/Itoa
 	noSchedObjs  map[*syncObj]bool
 	inSummary    map[*ssa.Function]bool
 	concrete     map[string]any // concrete re-execution: input values by name
